@@ -716,3 +716,99 @@ def ty_src(t):
     if h == "forall":
         return ty_src(t[3])
     return "Dyn"
+
+
+# ------------------------------------------------------------------ the model's signature table
+
+MODEL_PRIMS = [("PAdd", "primop", "(+)"), ("PSub", "primop", "(-)"), ("PMul", "primop", "(*)"), ("PDiv", "primop", "(/)"),
+               ("PLt", "primop", "(<)"), ("PLe", "primop", "(<=)"), ("PGt", "primop", "(>)"), ("PGe", "primop", "(>=)"),
+               ("PNot", "primop", "bool/not"), ("PConcat", "primop", "string/concat"), ("PArrCat", "primop", "(@)"),
+               ("PEq", "primop", "(==)"),
+               ("PStrLen", "std", "string.length"), ("PArrLen", "std", "array.length"), ("PArrAt", "std", "array.at"),
+               ("PArrMap", "std", "array.map")]
+
+
+def std_type(exe):
+    rc, out, err = core.run_lines(exe, [], ["tc,enforce\tstd"], timeout=300)
+    ok, terms, idents = parse_tc(out[0]) if out else (False, [], [])
+    if not ok or not terms:
+        raise TranslatorError("cannot read the type of std: %s" % (out[:1],))
+    return terms[0][3]
+
+
+def std_lookup(t, path):
+    for part in path.split("."):
+        if isinstance(t, str) or t[0] != "rec":
+            raise TranslatorError("std.%s: not a record type" % path)
+        hit = [r[1] for r in t[1] if r[0][1] == part]
+        if not hit:
+            raise TranslatorError("std.%s: no such field" % path)
+        t = hit[0]
+    return t
+
+
+def model_ty_coq(t, env):
+    """harness type s-expression -> Coq term of Types.Syntax.ty (de Bruijn; env = bound names, innermost first)"""
+    if isinstance(t, str):
+        return {"dyn": "TDyn", "num": "TNum", "bool": "TBool", "str": "TStr"}[t]
+    h = t[0]
+    if h == "var":
+        return "(TVar %d)" % env.index(t[1][1])
+    if h == "arr":
+        return "(TArr %s)" % model_ty_coq(t[1], env)
+    if h == "fun":
+        return "(TFun %s %s)" % (model_ty_coq(t[1], env), model_ty_coq(t[2], env))
+    if h == "forall":
+        if t[2] != "ty":
+            raise TranslatorError("row quantifier in a model primitive")
+        return "(TForall %s)" % model_ty_coq(t[3], [t[1][1]] + env)
+    if h == "enum" and t[2] == "closed" and all(len(r) == 1 for r in t[1]):
+        return "(TEnum [%s])" % "; ".join(coq_str(r[0][1]) for r in t[1])
+    raise TranslatorError("type outside the model fragment: %r" % (t,))
+
+
+def free_vars(t, acc):
+    if isinstance(t, str):
+        return acc
+    if t[0] == "var":
+        if t[1][1] not in acc:
+            acc.append(t[1][1])
+        return acc
+    for x in t[1:]:
+        if isinstance(x, list):
+            free_vars(x, acc)
+    return acc
+
+
+def write_model_sig(exe, table):
+    """coq/Gen/ModelSigGen.v: the static types the *running* typechecker gives to the primitives and
+    stdlib functions that the model of Types/Syntax.v contains (compared with Types/ModelSig.v by the
+    theorem of Types/SigTie.v)."""
+    rows = {r["name"]: r for r in table}
+    stdt = std_type(exe)
+    out = []
+    for (o, where, name) in MODEL_PRIMS:
+        if where == "primop":
+            if name not in rows:
+                raise TranslatorError("primop %s missing from the static table" % name)
+            r = rows[name]
+            t = r["res"]
+            for a in reversed(r["args"] + r["lazy"]):
+                t = ["fun", a, t]
+            fv = free_vars(t, [])
+            # unification variables left free = the primop's polymorphism; first-seen is outermost
+            body = model_ty_coq(t, list(reversed(fv)))
+            for _ in fv:
+                body = "(TForall %s)" % body
+        else:
+            body = model_ty_coq(std_lookup(stdt, name), [])
+        out.append("  (%s, %s)" % (o, body))
+    txt = ("(* GENERATED by checks/c01_sig.py from the running typechecker of /repo -- do not edit *)\n"
+           "From Coq Require Import List String.\nImport ListNotations.\nOpen Scope string_scope.\n"
+           "From NV Require Import Types.Syntax.\n\n"
+           "Definition gen_model_sig : list (prim * ty) := [\n%s\n].\n" % ";\n".join(out))
+    p = os.path.join(core.COQ, "Gen", "ModelSigGen.v")
+    old = open(p).read() if os.path.exists(p) else None
+    if old != txt:
+        with open(p, "w") as f:
+            f.write(txt)
